@@ -1,37 +1,16 @@
 package checks
 
-import (
-	"fmt"
-
-	"verif/internal/explore"
-	"verif/world"
-)
+import "fmt"
 
 func Debug17() {
-	for _, sc := range termScenarios[:1] {
-		t := buildTerm(sc)
-		t.run(explore.Replay(nil), 30, func(c *world.Call) bool { return true }, c09After)
-		fmt.Println(sc.name, t.history)
-		for _, c := range t.w.Client.Log {
-			fmt.Println("   ", c.String())
-		}
-		fmt.Println(t.w.GetNode("n1") != nil, t.w.GetNodeClaim(t.nc.Name) != nil, t.viol)
-		dbgHook(t)
+	c := c07Case{v: make([]int, len(c07Factors)), contents: "one-pod"}
+	env := buildDisrupt(c.world())
+	cmds, err := env.round("SingleNodeConsolidation")
+	fmt.Println(cmdStrings(cmds), err)
+	for _, e := range env.W.Rec.Events {
+		fmt.Println("  event:", e.Reason, e.Message)
 	}
-}
-
-func init() {
-	dbgHook = func(t *termRun) {
-		for n := range t.pods {
-			p := t.livePod(n)
-			if p == nil {
-				fmt.Println("pod", n, "gone")
-				continue
-			}
-			fmt.Println("pod", n, p.DeletionTimestamp, p.Status.Phase, p.Spec.NodeName)
-		}
-		for _, e := range t.envEvents() {
-			fmt.Println("env:", e.name)
-		}
+	for _, cl := range env.W.Client.Log {
+		fmt.Println("   ", cl.String())
 	}
 }
